@@ -10,7 +10,7 @@
  * included BEFORE interpose.h: the LIFO operations themselves run without
  * yielding, i.e. the LIFO is an atomic stack here (its linearizability is C30).
  *
- * A es al maxalloc maxcached mis | nfail f.. | T | ops(t0) | .. | ops(T-1) | sched
+ * A es al maxalloc maxcached mis [fx] | nfail f.. | T | ops(t0) | .. | ops(T-1) | sched     (fx: model variant, ignored here)
  *     ops: 1 cnt = get cnt elements, 2 k = release k-th held block, 3 k u = give k-th held block to thread u
  *     the n-th allocator call returns an address = (mis*(n+1)) mod 4096 (mod 4096), NULL when n is in f..
  * M eltsize cls | T | ops(t0) | .. | sched
@@ -31,7 +31,7 @@
 #define MAXB 8192
 #define MAXOPS 256
 #define GUARD 64
-static struct blk_s { char *raw, *p; size_t size; long cnt; int live, holder; } B[MAXB];
+static struct blk_s { char *raw, *p; size_t size, tag; long cnt; int live, holder; } B[MAXB];   /* tag = tagged bytes of the data region */
 static int ncalls, nfails, nfreed, freed[MAXB];
 static long fails[256], mis;
 static long cur_cnt[COS_MAX];
@@ -44,7 +44,7 @@ static long ES, AL;
 static void *h_alloc(size_t size) {
     int n = ncalls++;
     if (n >= MAXB) { nbad++; return NULL; }
-    B[n].size = size; B[n].live = 0; B[n].holder = -1;
+    B[n].size = size; B[n].live = 0; B[n].holder = -1; B[n].raw = NULL;
     for (int i = 0; i < nfails; i++) if (fails[i] == n) return NULL;
     size_t off = (size_t)((mis * (long)(n + 1)) % 4096);
     size_t tot = ((off + size + GUARD + 4095) / 4096) * 4096;
@@ -68,7 +68,7 @@ static void h_free(void *p) {
     if (B[n].holder >= 0) ndup++;              /* freed while somebody holds it */
     guards(n);
     B[n].live = 0; freed[nfreed++] = n;
-    free(B[n].raw);
+    /* the memory itself is kept until the end of the case (B[n].raw): a stale pointer to it cannot crash the harness */
 }
 
 /* ---- per-thread programs ---------------------------------------------- */
@@ -110,12 +110,15 @@ static void athread(void *arg) {
             if ((size_t)data.span != (size_t)cnt * (size_t)ES) nbad++;
             if ((uintptr_t)d % (uintptr_t)AL) nbad++;                                           /* aligned as requested */
             if ((char *)d < (char *)ch + sizeof(parsec_arena_chunk_t)) nbad++;                  /* header not overlapped */
-            if ((char *)d + cnt * ES > B[id].p + B[id].size) nbad++;                            /* at least as large as asked */
-            else {
-                /* ownership tag: the whole data region must be free (0) and becomes t+1 */
-                if (B[id].holder >= 0 || !region_is(d, (size_t)(cnt * ES), 0)) ndup++;
-                memset(d, t + 1, (size_t)(cnt * ES));
+            size_t tag = (size_t)(cnt * ES);
+            if ((char *)d + cnt * ES > B[id].p + B[id].size) {                                 /* at least as large as asked */
+                nbad++;
+                tag = ((char *)d < B[id].p + B[id].size) ? (size_t)(B[id].p + B[id].size - (char *)d) : 0;
             }
+            /* ownership tag: the whole data region must be free (0) and becomes t+1 */
+            if (B[id].holder >= 0 || !region_is(d, tag, 0)) ndup++;
+            memset(d, t + 1, tag);
+            B[id].tag = tag;
             B[id].holder = t; B[id].cnt = cnt;
             held[t][nheld[t]] = id; heldp[t][nheld[t]] = ch; nheld[t]++;
             LOG(t, " g%d/%ld/%ld/%zu", id, cnt, (long)((char *)d - (char *)ch), B[id].size);
@@ -123,8 +126,8 @@ static void athread(void *arg) {
             int k = (int)o[1];
             if (k < 0 || k >= nheld[t]) { LOG(t, " x"); continue; }
             int id = held[t][k]; parsec_arena_chunk_t *ch = heldp[t][k];
-            if (B[id].holder != t || !region_is(ch->data, (size_t)(ch->count * ES), (unsigned char)(t + 1))) ndup++;
-            memset(ch->data, 0, (size_t)(ch->count * ES));
+            if (B[id].holder != t || !region_is(ch->data, B[id].tag, (unsigned char)(t + 1))) ndup++;
+            memset(ch->data, 0, B[id].tag);
             B[id].holder = -1;
             drop_held(t, k);
             parsec_data_copy_t copy; memset(&copy, 0, sizeof(copy));
@@ -137,7 +140,7 @@ static void athread(void *arg) {
             int id = held[t][k]; parsec_arena_chunk_t *ch = heldp[t][k];
             /* retag for the new holder */
             if (B[id].holder != t) ndup++;
-            memset(ch->data, u + 1, (size_t)(ch->count * ES));
+            memset(ch->data, u + 1, B[id].tag);
             B[id].holder = u;
             give(t, k, u);
             LOG(t, " k");
@@ -285,7 +288,7 @@ int main(int argc, char **argv) {
             /* final ownership audit: every held block still carries its holder's tag, no block is held twice */
             for (int t = 0; t < NT; t++) for (int i = 0; i < nheld[t]; i++) {
                 int id = held[t][i]; parsec_arena_chunk_t *ch = heldp[t][i];
-                if (!B[id].live || B[id].holder != t || !region_is(ch->data, (size_t)(ch->count * ES), (unsigned char)(t + 1))) ndup++;
+                if (!B[id].live || B[id].holder != t || !region_is(ch->data, B[id].tag, (unsigned char)(t + 1))) ndup++;
                 for (int u = 0; u < NT; u++) for (int j = 0; j < nheld[u]; j++) if ((u != t || j != i) && held[u][j] == id) ndup++;
                 for (int j = 0; j < ll; j++) if (tmpids[j] == id) ndup++;
             }
@@ -295,7 +298,7 @@ int main(int argc, char **argv) {
             for (int n = 0; n < ncalls; n++) if (B[n].live) B[n].holder = -1;
             for (int t = 0; t < NT; t++) for (int i = 0; i < nheld[t]; i++) h_free(heldp[t][i]);
             PARSEC_OBJ_DESTRUCT(&arena);
-            for (int n = 0; n < ncalls; n++) if (B[n].live) { free(B[n].raw); B[n].live = 0; }
+            for (int n = 0; n < ncalls && n < MAXB; n++) { free(B[n].raw); B[n].raw = NULL; B[n].live = 0; }
         } else {
             k = hc_ints(&p, v, 64);
             if (k < 2) { printf("<bad case>\n"); continue; }
